@@ -23,6 +23,11 @@ Record point := mkP {
   p_chan : string; p_class : string;
   p_select : bool; p_alts : list alt;                 (* the OTHER cases of the select *)
   p_buf : string }.                                   (* send: unbuffered | buffered | unknown *)
+(* lock-release table: on the exit `l_exit` of function `l_func`, is `l_mutex` (locked somewhere in the
+   function, not covered by a deferred unlock) released on every path that reaches the exit? *)
+Record lockrec := mkL { l_file : string; l_func : string; l_mutex : string; l_exit : string; l_released : bool }.
+Definition unreleased (ls : list lockrec) : list (string * string * string * string) :=
+  map (fun l => (l_file l, l_func l, l_mutex l, l_exit l)) (filter (fun l => negb (l_released l)) ls).
 Record closer := mkC { c_file : string; c_func : string; c_ctx : string; c_chan : string; c_after : string }.
 
 (* ------------------------------------------------------------ 2. LTS *)
